@@ -597,6 +597,12 @@ func safeCall(fn reflect.Value, args []reflect.Value) (values []reflect.Value, e
 func (vr *variableResolver) Evaluate(ctx *ExecutionContext) (*Value, *Error) {
 	value, err := vr.resolve(ctx)
 	if err != nil {
+		if inner, ok := err.(*Error); ok && inner != nil && inner.Line > 0 {
+			// the error of a macro that was called here (it has the position it occurred
+			// at): handed on as it is. Wrapping it renders its whole text again at every
+			// level it passes - quadratic in the depth of a recursion that ends in an error
+			return AsValue(nil), inner
+		}
 		return AsValue(nil), ctx.Error(err.Error(), vr.locationToken)
 	}
 	return value, nil
